@@ -11,7 +11,7 @@ HOOK_COMMITS = ['e2a9968']
 CHECKS = {
     'C06': dict(level='exploration',
                 technique='runtime monitoring under AddressSanitizer+UBSan: process-exit oracle (status/signal/CPU clock/stdout-on-error) over fixed mutation universes',
-                text='Every selected member of four fixed finite input universes (line truncations, mid-token cuts, indexed mutants, file x language) is run as a fresh ASan+UBSan process; the oracle observes signal, sanitizer log, exit status, CPU-time limit, stdout on error and the diagnostic. Held on the executions listed in the evidence, nothing more.',
+                text='Every selected member of four fixed finite input universes (line truncations, mid-token cuts, indexed mutants, file x language) is run as a fresh ASan+UBSan process; the oracle observes signal, sanitizer log, exit status, CPU-time limit, stdout on error and the diagnostic. Held on the executions listed in the evidence, nothing more. Fixed families in every run: malformed endings x every value of every option of the family that processes the construct (comment, string, directive incl. conditionals whose alternatives end on different brace levels, block), 21 bare statement fragments that are the whole file x every newline option, and generated valid programs under joint draws. Hang keys name the pass, the function the pass was in and - one option away from the defaults - the option.',
                 note='Trusted: ASan/UBSan red-zone and UB detection on executed paths; RLIMIT_CPU as logical clock (60 s asan, confirmed 20 s plain); gdb for the root-cause locus of findings.',
                 design='DESIGN.md §2 C06'),
 }
@@ -29,7 +29,7 @@ CHECKS['C10'] = dict(level='exploration',
 
 CHECKS['C08'] = dict(level='exploration',
     technique='runtime monitoring: metamorphic oracles over terminator conversion (purity, substitution, commutation, census majority) on real executions',
-    text='Per (corpus file, base config) ~17 executions: output under lf/crlf/cr must contain only that terminator, crlf/cr outputs must be the lf output with terminators substituted, formatting the CRLF/CR/mixed conversions of the input must give the same bytes, and newlines=auto must follow the majority the tokenizer can count (T dump census). Known lone-CR defects are keyed by the construct the break lies in.',
+    text='Per (corpus file, base config) ~17 executions: output under lf/crlf/cr must contain only that terminator, crlf/cr outputs must be the lf output with terminators substituted, formatting the CRLF/CR/mixed conversions of the input must give the same bytes, and newlines=auto must follow the majority the tokenizer can count (T dump census). Known lone-CR defects are keyed by the construct the break lies in. In every run: three hand-written hosts (disabled span inside one comment, region between comments and #pragma asm, line breaks inside macros, comments and raw strings) and every corpus file with a disabled region, under every base config.',
     note='Trusted: T dump newline census for the auto clause; UTF-16 inputs are left to C09.',
     design='DESIGN.md §2 C08')
 CHECKS['C11'] = dict(level='exploration',
@@ -45,7 +45,7 @@ CHECKS['C12'] = dict(level='exploration',
 
 CHECKS['C09'] = dict(level='exploration',
     technique='runtime monitoring: transcoding-commutation oracle over an exhaustive Unicode scalar sweep, transcoded corpus, option table and invalid sequences',
-    text='All 1,112,064 scalar values (thorough; quick: seeded 1/8 + boundary blocks) are placed in a block comment, a // comment, string literals and identifiers, formatted by the real binary in UTF-8, UTF-8+BOM, UTF-16LE and UTF-16BE, and the outputs must be the transcodings of one another with the scalar sequence unchanged; corpus texts are transcoded likewise; the utf8_bom x utf8_force x input-encoding table is compared with the documented outcome; 21 invalid byte sequences in 4 positions must be refused or passed through byte-identically.',
+    text='All 1,112,064 scalar values (thorough; quick: seeded 1/8 + boundary blocks) are placed in a block comment, a // comment, string literals and identifiers, formatted by the real binary in UTF-8, UTF-8+BOM, UTF-16LE and UTF-16BE, and the outputs must be the transcodings of one another with the scalar sequence unchanged; corpus texts are transcoded likewise; the utf8_bom x utf8_force x input-encoding table is compared with the documented outcome; 21 invalid byte sequences in 4 positions must be refused or passed through byte-identically. Thirteen tiny documents (empty, one line break, one token, one non-ASCII character ...) must commute with transcoding as well (a file that is nothing but its BOM is the encoding of the empty document).',
     note='Trusted: Python codecs as the reference transcoder.',
     design='DESIGN.md §2 C09')
 CHECKS['C13'] = dict(level='fault_enumeration',
@@ -56,7 +56,7 @@ CHECKS['C13'] = dict(level='fault_enumeration',
 
 CHECKS['C14'] = dict(level='exploration',
     technique='runtime monitoring of histories: exhaustive bounded enumeration of user-write/--replace/kill histories against the real binary with protocol invariants checked on the directory after every step',
-    text='All histories up to length 4 (quick) / 5 (thorough) over {4 user writes, --replace with config A/B, with/without --if-changed}, plus histories with one run killed by strace SIGKILL at every syscall of its window, are executed against the real binary; after each step the backup must hold the last user text whenever uncrustify changed the file, and the md5 file must describe the content left in the file. The shortest violating history is reported.',
+    text='All histories up to length 4 (quick) / 5 (thorough) over {4 user writes, --replace with config A/B, with/without --if-changed}, plus histories with one run killed by strace SIGKILL at every syscall of its window, are executed against the real binary; after each step the backup must hold the last user text whenever uncrustify changed the file, and the md5 file must describe the content left in the file. The shortest violating history is reported. Violations after a killed run are keyed by what followed it (another run, a byte-identical write, an edit).',
     note='Trusted: the invariants are the statement clauses; a byte-identical user write does not start a new epoch (DESIGN.md §4).',
     design='DESIGN.md §2 C14')
 
@@ -91,7 +91,7 @@ CHECKS['C07'] = dict(level='exploration',
 
 CHECKS['C17'] = dict(level='exploration',
     technique='runtime monitoring: per-line predicates on the output classified by an independent lexer (trailing blanks, tab/space discipline of leading whitespace by indent_with_tabs / pp_indent_with_tabs, end-of-file policy) over hostile re-layouts of the corpus x tab/indent/align option draws',
-    text='Corpus files of all nine languages, 70 % of them re-laid-out with hostile whitespace (space/tab mixes in front, trailing blanks, whitespace-only lines, tabs between tokens; token stream checked unchanged), are formatted under the complete indent_with_tabs x indent_columns x output_tab_size grid (fixed core) and seeded draws of tab/indent/align/pp/eof options, joint whitespace draws and curated configs (fixed universe of 80k cases; quick: 15k). Every output line that starts outside a comment/literal is judged: no trailing blank where the line ends outside a comment/literal; no tab in the leading whitespace with indent_with_tabs=0; no space before a tab with 1 or 2; directive lines by pp_indent_with_tabs; the end of file by nl_end_of_file/nl_end_of_file_min. Whitespace-only lines are judged by indent_with_tabs when indent_single_newlines=true; three hosts with directives inside nested blocks followed by blank lines run over the whole (indent_with_tabs x pp_indent_with_tabs x indent_single_newlines x indent_columns x output_tab_size x pp_indent) grid.',
+    text='Corpus files of all nine languages, 70 % of them re-laid-out with hostile whitespace (space/tab mixes in front, trailing blanks, whitespace-only lines, tabs between tokens; token stream checked unchanged), are formatted under the complete indent_with_tabs x indent_columns x output_tab_size grid (fixed core) and seeded draws of tab/indent/align/pp/eof options, joint whitespace draws and curated configs (fixed universe of 80k cases; quick: 15k). Every output line that starts outside a comment/literal is judged: no trailing blank where the line ends outside a comment/literal; no tab in the leading whitespace with indent_with_tabs=0; no space before a tab with 1 or 2; directive lines by pp_indent_with_tabs; the end of file by nl_end_of_file/nl_end_of_file_min. Whitespace-only lines are judged by indent_with_tabs when indent_single_newlines=true; three hosts with directives inside nested blocks followed by blank lines run over the whole (indent_with_tabs x pp_indent_with_tabs x indent_single_newlines x indent_columns x output_tab_size x pp_indent) grid. Two macro hosts whose lines end in blanks run under all 32 combinations of the five lexer-altering options.',
     note='Trusted: the independent lexer for the line classification (inputs/outputs it does not lex cleanly are counted and not judged).',
     design='DESIGN.md §2 C17')
 CHECKS['C20'] = dict(level='exploration',
@@ -102,25 +102,25 @@ CHECKS['C20'] = dict(level='exploration',
 
 CHECKS['C19'] = dict(level='exploration',
     technique='runtime monitoring with the SPACE and DUMP hooks: every spacing decision record (rule names logged, raw and final value, forced flag) is joined with the blanks measured between the two tokens in the output bytes and with the configured value of the rule named',
-    text='Every one of the 258 IARF sp_ options is set singly to each of ignore/add/remove/force (exhaustive over options x values) on corpus files where its rule fires under defaults and on nine hand-written hosts; a 6-config pairwise-separating family (each option a distinct code word of minimum distance 2, so any two options differ in at least two configs) and seeded joint draws are run over seeded corpus files. For every record whose last logged rule is a user option and whose tokens are adjacent on one output line (tokens located in the output bytes by a sequential scan of the O dump): remove gives no blank unless the junction would lex differently (decided by the independent lexer, two identifier characters, digraphs) or the rule is one the statement names (return/case operand, macro body); force gives exactly min_sp (1) blanks; add at least one; ignore keeps presence as in the input (tokens neighbours in the T dump); and the raw decision equals the value configured for the very rule named (decorations such as "/FORCE" and "| ADD" are honoured as logged). A further family leaves the Qt SIGNAL/SLOT override at its default (on) over a Qt host and the corpus files with such macros: pairs inside the macros are skipped, everything after a macro must obey the configured values again.',
+    text='Every one of the 258 IARF sp_ options is set singly to each of ignore/add/remove/force (exhaustive over options x values) on corpus files where its rule fires under defaults and on nine hand-written hosts; a 6-config pairwise-separating family (each option a distinct code word of minimum distance 2, so any two options differ in at least two configs) and seeded joint draws are run over seeded corpus files. For every record whose last logged rule is a user option and whose tokens are adjacent on one output line (tokens located in the output bytes by a sequential scan of the O dump): remove gives no blank unless the junction would lex differently (decided by the independent lexer, two identifier characters, digraphs) or the rule is one the statement names (return/case operand, macro body); force gives exactly min_sp (1) blanks; add at least one; ignore keeps presence as in the input (tokens neighbours in the T dump); and the raw decision equals the value configured for the very rule named (decorations such as "/FORCE" and "| ADD" are honoured as logged). A further family leaves the Qt SIGNAL/SLOT override at its default (on) over a Qt host and the corpus files with such macros: pairs inside the macros are skipped, everything after a macro must obey the configured values again. The C and C++ hosts include a function with embedded block comments directly in front of operators, casts, arguments and semicolons.',
     note='Trusted: the SPACE hook reports what log_rule() is given and what space_text() decides (C10 checks that hooks do not change the output); trailing comments, Qt macro arguments and pairs not attributed to a user option are counted, not judged.',
     design='DESIGN.md §2 C19')
 
 CHECKS['C18'] = dict(level='exploration',
     technique='runtime monitoring: metamorphic re-indentation invariance (leading whitespace of statement-start output lines unchanged when every input line is re-indented) and a reference model (closed-form column from the generator\'s own nesting) over generated block-structured programs and corpus files',
-    text='Grammar-generated C/C++/Java programs (one statement, brace or label per line; if/else chains, braceless bodies, for/while/do-while, switch/case with fall-through, bare blocks, namespaces, classes, own-line comments; nesting up to level 9; brace placement mixed per construct; input indentation random per line) from a fixed universe of 50k programs. Closed form: every output line must start at (brace depth + braceless nesting + enclosing case labels) x indent_columns + enclosing switches x indent_switch_case (+ indent_columns inside a namespace/class with indent_namespace/indent_class), closing braces at the column of the statement that opened the block, for indent_columns 1..16 x indent_with_tabs 0..2 x output_tab_size {2,3,4,8}, with random sp_ options that must be irrelevant. Invariance: 3 re-indentations of every line of a generated program, and 2 re-indentations of the statement-start lines of corpus files (all languages), must leave the leading whitespace of every judged output line unchanged, under model options and joint draws of options not documented to keep original columns. Comment invariance: comments injected between lines and at line ends of generated programs and of nine hand-written hosts (braced cases, lambdas/blocks as arguments, one-liners) must not change the leading whitespace of any code line. Consistency: siblings, chain arms and brace pairs under 17 brace-style options.',
+    text='Grammar-generated C/C++/Java programs (one statement, brace or label per line; if/else chains, braceless bodies, for/while/do-while, switch/case with fall-through, bare blocks, namespaces, classes, own-line comments; nesting up to level 9; brace placement mixed per construct; input indentation random per line) from a fixed universe of 50k programs. Closed form: every output line must start at (brace depth + braceless nesting + enclosing case labels) x indent_columns + enclosing switches x indent_switch_case (+ indent_columns inside a namespace/class with indent_namespace/indent_class), closing braces at the column of the statement that opened the block, for indent_columns 1..16 x indent_with_tabs 0..2 x output_tab_size {2,3,4,8}, with random sp_ options that must be irrelevant. Invariance: 3 re-indentations of every line of a generated program, and 2 re-indentations of the statement-start lines of corpus files (all languages), must leave the leading whitespace of every judged output line unchanged, under model options and joint draws of options not documented to keep original columns. Comment invariance: comments injected between lines and at line ends of generated programs and of nine hand-written hosts (braced cases, lambdas/blocks as arguments, one-liners) must not change the leading whitespace of any code line. Consistency: siblings, chain arms and brace pairs under 17 brace-style options. Preprocessor alternatives: in conditionals with 2..4 alternatives (each opening a block that is closed after #endif, or balanced) every alternative must be laid out as in the program that holds it alone.',
     note='Trusted: the generator\'s own nesting bookkeeping as the expected depth (the O dump is not used); the closed form was calibrated on the pinned tree (0 disagreements in 565k lines) and is frozen in vf/props/c18.py expected_width().',
     design='DESIGN.md §2 C18')
 
 CHECKS['C04'] = dict(level='exploration',
     technique='runtime monitoring: allowed-edit residual oracle on the independent lexer\'s token streams (tokens of the kinds the enabled mod_ options name removed from both streams, the rest must be identical; line groups as multisets; pairs and balance) over an exhaustive mod_ option x value sweep and seeded option subsets',
-    text='Every one of the 57 mod_ options singly at every value (exhaustive over options x values) and seeded subsets of 0..10 mod_ options with random whitespace options are applied to corpus files of all nine languages and to generated C/C++/Java programs (nested single-statement bodies, if/else chains, switch/case, do-while, bare blocks, own-line comments). After removing the token texts the enabled options are documented to add or remove (braces, parentheses, ";", "int", ",", "return ;", loop-header tokens; whole include/import/using/alias lines compared as multisets; statement-moving options compared as multisets) the input and output token streams with directive brackets must be identical, braces/parentheses must be added or removed in pairs, balanced nesting must stay balanced, and with no mod_ option enabled the streams must be identical.',
+    text='Every one of the 57 mod_ options singly at every value (exhaustive over options x values) and seeded subsets of 0..10 mod_ options with random whitespace options are applied to corpus files of all nine languages and to generated C/C++/Java programs (nested single-statement bodies, if/else chains, switch/case, do-while, bare blocks, own-line comments). After removing the token texts the enabled options are documented to add or remove (braces, parentheses, ";", "int", ",", "return ;", loop-header tokens; whole include/import/using/alias lines compared as multisets; statement-moving options compared as multisets) the input and output token streams with directive brackets must be identical, braces/parentheses must be added or removed in pairs, balanced nesting must stay balanced, and with no mod_ option enabled the streams must be identical. Hosts: C, C++, Java, C# and Objective-C (every property attribute kind) programs dense in the shapes the options rewrite.',
     note='Trusted: the independent lexer (precise for C, C++, ObjC, Java, C#; for the other languages a boundary-only difference with equal characters is accepted). Files whose token stream already changes under the default configuration (C02 findings) are classed baseline-differs.',
     design='DESIGN.md §2 C04')
 
 CHECKS['C01'] = dict(level='translation_validation',
     technique='runtime monitoring with a reference compiler as oracle: every generated program and its formatted version are compiled with the same compiler and flags (gcc/g++/clang -O1 -S on stdin, javac -g:none) and the object code compared (per-instance translation validation)',
-    text='Grammar-generated compilable programs (C, C++17, Java, Objective-C) made of a hand-written preamble (includes to sort over generated headers, macros incl. multi-line, #if 0 branches, enums with/without trailing comma, every int-keyword spelling, extra semicolons, empty returns, all infinite-loop forms, bit-fields, designated initialisers, templates incl. >>, lambdas, range-for, ctor initialisers, try/catch/finally, synchronized) and generated functions (every statement kind, braceless bodies, nested blocks, pointer/unary chains next to binary operators such as a / *q1, a - -b, a & *&b, own-line comments; hostile layout) are formatted under every non-excluded option singly at every swept non-default value (about 2100 option=value configs in a covering design: each meets 2 (quick) / 8 (thorough) programs) and under joint draws over all non-excluded options. uncrustify must exit 0, the output must compile, and the assembly (minus .file/.ident) or class files must be identical to those of the input. Programs the compiler rejects are discarded and counted; distinct outputs are compiled once. Nine hand-written hosts carry every shape the code-modifying passes look for (braced cases with declarations, removable braces, dangling-else shapes, one-liners, int spellings, enum commas) in every nesting context (plain body, statement expression / lambda / block as call argument, preprocessor branch, member function in a namespace, Java lambda and anonymous class) and are run under every code-modifying and comment-rewriting option at every value (thorough: every swept option) and joint draws.',
+    text='Grammar-generated compilable programs (C, C++17, Java, Objective-C) made of a hand-written preamble (includes to sort over generated headers, macros incl. multi-line, #if 0 branches, enums with/without trailing comma, every int-keyword spelling, extra semicolons, empty returns, all infinite-loop forms, bit-fields, designated initialisers, templates incl. >>, lambdas, range-for, ctor initialisers, try/catch/finally, synchronized) and generated functions (every statement kind, braceless bodies, nested blocks, pointer/unary chains next to binary operators such as a / *q1, a - -b, a & *&b, own-line comments; hostile layout) are formatted under every non-excluded option singly at every swept non-default value (about 2100 option=value configs in a covering design: each meets 2 (quick) / 8 (thorough) programs) and under joint draws over all non-excluded options. uncrustify must exit 0, the output must compile, and the assembly (minus .file/.ident) or class files must be identical to those of the input. Programs the compiler rejects are discarded and counted; distinct outputs are compiled once. Nine hand-written hosts carry every shape the code-modifying passes look for (braced cases with declarations, removable braces, dangling-else shapes, one-liners, int spellings, enum commas) in every nesting context (plain body, statement expression / lambda / block as call argument, preprocessor branch, member function in a namespace, Java lambda and anonymous class) and are run under every code-modifying and comment-rewriting option at every value (thorough: every swept option) and joint draws. Every pair of code-modifying (option, value)s runs on the plain hosts (thorough: on all nine).',
     note='Trusted: gcc/g++/clang/javac as the semantics oracle at one optimisation level and target; the excluded configurations are those the statement excludes plus the two error-policy options.',
     design='DESIGN.md §2 C01')
 
